@@ -1392,12 +1392,30 @@ LAYER_CHECK = {
 }
 
 
+def _incomplete(b, r):
+  o = r['out']
+  if o['infeasible']:
+    return False
+  return o['metrics'] is None or any(
+      m['name'] not in o['metrics'] for m in b.ps_desc['metrics'])
+
+
+def _incomplete_ids(b):
+  """Trial ids some experimenter below b left without its own metrics."""
+  ids = set()
+  for c in b.children:
+    ids |= {r['id'] for r in c.probe.records if _incomplete(c, r)}
+    ids |= _incomplete_ids(c)
+  return ids
+
+
 def check_generic(b, recs, out, where, changed_below=()):
   """Clauses (1) and (2) for one experimenter as seen by its caller."""
   names = [m['name'] for m in b.ps_desc['metrics']]
+  incomplete_below = _incomplete_ids(b)
   for r in recs:
     o = r['out']
-    if not o['infeasible']:
+    if not o['infeasible'] and r['id'] not in incomplete_below:
       if o['metrics'] is None:
         out.violate('generic/not_completed/' + b.cls, _detail(rec=r, at=where))
       else:
